@@ -48,8 +48,10 @@ def oracle(c):
     if not c["accepted"]:
         return None
     shadow = {}  # byte contents as written through successful writes
+    pg = cf["min"]  # the oracle keeps its own page count: the host's Grow(0) is one of the things under test
     for j, (op, ob) in enumerate(zip(c["ops"], c["obs"])):
-        pg = c["pg"][j]
+        if c["pg"][j] != pg and not (c["engine"] == "compiler" and pg == 65536):
+            return "op %d: host Grow(0) reports %d pages, %d expected from the history of successful grows" % (j, c["pg"][j], pg)
         ln = pg << 16
         if not (cf["min"] <= pg <= bound):
             return "op %d: %d pages outside [%d, %d]" % (j, pg, cf["min"], bound)
@@ -60,6 +62,7 @@ def oracle(c):
             want = pg + op[1] <= bound
             if (ob[0] == "ok") != want or (want and ob[1] != pg):
                 return "op %d: grow(%d) at %d pages (bound %d) -> %s" % (j, op[1], pg, bound, ob)
+            if want: pg += op[1]
         elif k in ("pages", "gsize"):
             if ob != ["ok", pg]:
                 return "op %d: %s returned %s at %d pages" % (j, k, ob, pg)
